@@ -25,7 +25,8 @@ def sh(cmd, timeout=3600, env=None):
     e = dict(os.environ)
     e.update(env or {})
     try:
-        r = subprocess.run(cmd, shell=True, stdout=subprocess.PIPE, stderr=subprocess.STDOUT, text=True, timeout=timeout, env=e)
+        r = subprocess.run(cmd, shell=True, stdout=subprocess.PIPE, stderr=subprocess.STDOUT, text=True, errors="replace",
+                           timeout=timeout, env=e)
         return r.returncode, r.stdout
     except subprocess.TimeoutExpired as ex:
         return 124, (ex.stdout or "") if isinstance(ex.stdout, str) else "timeout"
